@@ -847,3 +847,85 @@ Qed.
 
 Lemma GI3_run sched : forall st, GI3 st -> GI3 (mrun sched st).
 Proof. induction sched as [|i sched IH]; intros st G; [exact G|]. cbn [mrun fold_left]. apply IH. apply GI3_step. exact G. Qed.
+
+(* ---- initial states, and the theorems with ms_bad = false as the only flag hypothesis ---- *)
+Lemma init_T3 ms t : mthread_init (nc ms) t -> (m_isadd t = false -> m_tgt t = NewFile \/ m_tgt t = FullFile) -> T3 ms t.
+Proof.
+  intros Hi Ht. pose proof (init_CI2 ms t Hi Ht) as (I & Ne & Gr).
+  assert (Hw : m_walks t = []) by (destruct Hi as [(k & n & _ & _ & ->)|(tg & ->)]; reflexivity).
+  unfold T3. rewrite Hw. split; [exact I|]. unfold NQ. rewrite Gr, Ne, repeat_length. split; [reflexivity|].
+  intros j Hj. rewrite nth_repeat. apply Nat.ltb_lt in Hj. rewrite Hj. reflexivity.
+Qed.
+
+Lemma init_GI3 ms ts : mgood ms ts -> ctl_init ms ts -> GI3 (ms, ts).
+Proof.
+  intros (C & B & FT & _ & _) (W & FN). unfold GI3. right. split; [exact C|]. split; [exact W|].
+  split; [|split].
+  - rewrite Forall_forall in *. intros t Ht. apply init_T3; [apply FT; exact Ht | apply FN; exact Ht].
+  - intros j t Hj _ Hw. rewrite Forall_forall in FT.
+    assert (X : m_wrote t = false) by (destruct (FT t (nth_error_In _ _ Hj)) as [(k & n & _ & _ & ->)|(tg & ->)]; reflexivity).
+    congruence.
+  - intros i j ti tj Hi _ _ _ _ Hw. rewrite Forall_forall in FT.
+    assert (X : m_wrote ti = false) by (destruct (FT ti (nth_error_In _ _ Hi)) as [(k & n & _ & _ & ->)|(tg & ->)]; reflexivity).
+    congruence.
+Qed.
+
+(* the control invariant along every run; the self-check flag is never set
+   while the run stays inside the envelope *)
+Theorem multi_control_invariant3 ms0 ts0 sched : mgood ms0 ts0 -> ctl_init ms0 ts0 -> GI3 (mrun sched (ms0, ts0)).
+Proof. intros G N. apply GI3_run. apply init_GI3; assumption. Qed.
+
+Theorem multi_chk_clear ms0 ts0 sched : mgood ms0 ts0 -> ctl_init ms0 ts0 ->
+  ms_bad (fst (mrun sched (ms0, ts0))) = false -> ms_chk (fst (mrun sched (ms0, ts0))) = false.
+Proof.
+  intros G N B. pose proof (multi_control_invariant3 ms0 ts0 sched G N) as X.
+  destruct (mrun sched (ms0, ts0)) as [ms ts]. cbn [fst] in *. destruct X as [X|(C & _)]; [congruence | exact C].
+Qed.
+
+Theorem multi_step_projects3 ms0 ts0 sched k i : mgood ms0 ts0 -> ctl_init ms0 ts0 ->
+  (k < length (ms_ctrs ms0))%nat -> ms_bad (fst (mstep (mrun sched (ms0, ts0)) i)) = false ->
+  xstep (memn k (ms_list (fst (mrun sched (ms0, ts0))))) (sproj k (mrun sched (ms0, ts0)))
+        (sproj k (mstep (mrun sched (ms0, ts0)) i)).
+Proof.
+  intros G N Hk B.
+  assert (E : mstep (mrun sched (ms0, ts0)) i = mrun (sched ++ [i]) (ms0, ts0)).
+  { unfold mrun. rewrite fold_left_app. reflexivity. }
+  pose proof (multi_chk_clear ms0 ts0 (sched ++ [i]) G N) as C. rewrite <- E in C.
+  apply mstep_projects; auto.
+  pose proof (mrun_frame sched (ms0, ts0)) as (L & _). cbn [fst] in L. rewrite L. exact Hk.
+Qed.
+
+Theorem multi_inv3 ms0 ts0 sched k : mgood ms0 ts0 -> reg_init ms0 -> ctl_init ms0 ts0 ->
+  ms_bad (fst (mrun sched (ms0, ts0))) = false -> (k < length (ms_ctrs ms0))%nat ->
+  Inv (total_k k ms0 ts0) (sproj k (mrun sched (ms0, ts0))) /\
+  Forall (fun t => done_ok t = true) (snd (mrun sched (ms0, ts0))).
+Proof. intros G R N B Hk. apply multi_inv; auto. apply multi_chk_clear; assumption. Qed.
+
+Theorem multi_upper_bound3 ms0 ts0 sched k : mgood ms0 ts0 -> reg_init ms0 -> ctl_init ms0 ts0 ->
+  let '(ms, ts) := mrun sched (ms0, ts0) in
+  ms_bad ms = false -> (k < length (ms_ctrs ms0))%nat ->
+  persisted (proj k ms) + w_extra (c_word (getc ms k))
+  <= persisted (proj k ms0) + w_extra (c_word (getc ms0 k)) + (sumf unbegun (tsproj k ts0) - sumf unbegun (tsproj k ts)).
+Proof.
+  intros G R N. pose proof (multi_upper_bound ms0 ts0 sched k G R) as U. pose proof (multi_chk_clear ms0 ts0 sched G N) as C.
+  destruct (mrun sched (ms0, ts0)) as [ms ts]. cbn [fst] in C. auto.
+Qed.
+
+Theorem multi_exact_at_quiescence3 ms0 ts0 sched k : mgood ms0 ts0 -> reg_init ms0 -> ctl_init ms0 ts0 ->
+  let '(ms, ts) := mrun sched (ms0, ts0) in
+  ms_bad ms = false -> (k < length (ms_ctrs ms0))%nat -> m_all_done ts = true -> c_sat (getc ms k) = false ->
+  persisted (proj k ms) + w_extra (c_word (getc ms k))
+  = persisted (proj k ms0) + w_extra (c_word (getc ms0 k)) + sumf unbegun (tsproj k ts0) /\
+  w_readers (c_word (getc ms k)) = 0.
+Proof.
+  intros G R N. pose proof (multi_exact_at_quiescence ms0 ts0 sched k G R) as U. pose proof (multi_chk_clear ms0 ts0 sched G N) as C.
+  destruct (mrun sched (ms0, ts0)) as [ms ts]. cbn [fst] in C. auto.
+Qed.
+
+Theorem multi_no_nil_deref3 ms0 ts0 sched k : mgood ms0 ts0 -> reg_init ms0 -> ctl_init ms0 ts0 ->
+  let '(ms, ts) := mrun sched (ms0, ts0) in
+  ms_bad ms = false -> (k < length (ms_ctrs ms0))%nat -> Forall (fun u => crashed u = false) (tsproj k ts).
+Proof.
+  intros G R N. pose proof (multi_no_nil_deref ms0 ts0 sched k G R) as U. pose proof (multi_chk_clear ms0 ts0 sched G N) as C.
+  destruct (mrun sched (ms0, ts0)) as [ms ts]. cbn [fst] in C. auto.
+Qed.
